@@ -115,11 +115,19 @@ func c09(r *core.Run) {
 	}
 	r.Floor("R1.source", 7)
 
+	castUnboxAgreement(r, "R2.unbox")
+	r.Floor("R2.unbox", 1)
+	_ = named
+}
+
+// castUnboxAgreement: the optional-unboxing guards of the interpreter's and the VM's cast helpers agree.
+func castUnboxAgreement(r *core.Run, rule string) {
+	w := r.W
 	// R2 the unboxing guards agree
 	fi := w.Fn("interpreter", "Interpreter", "castValueAndValueType")
 	fv := w.Fn("bbq/vm", "", "castValueAndValueType")
 	if fi == nil || fv == nil {
-		r.Undecided("R2.unbox", "castValueAndValueType (interpreter / bbq/vm)", "the twin cast helpers do not resolve")
+		r.Undecided(rule, "castValueAndValueType (interpreter / bbq/vm)", "the twin cast helpers do not resolve")
 	} else {
 		gi, ok1 := unboxGuard(fi)
 		gv, ok2 := unboxGuard(fv)
@@ -139,9 +147,7 @@ func c09(r *core.Run) {
 			}
 		}
 		sort.Strings(gv)
-		r.Check(ok1 && ok2 && strings.Join(gi, ",") == strings.Join(gv, ",") && len(gi) == 2, "R2.unbox", "castValueAndValueType: optional-preserving targets agree", fi.Pos(),
+		r.Check(ok1 && ok2 && strings.Join(gi, ",") == strings.Join(gv, ",") && len(gi) == 2, rule, "castValueAndValueType: optional-preserving targets agree", fi.Pos(),
 			"both engines keep optionals for {"+strings.Join(gi, ",")+"}", "interpreter keeps optionals for {"+strings.Join(gi, ",")+"}, the VM for {"+strings.Join(gv, ",")+"}: a dynamic cast yields values of different dynamic type in the two engines")
 	}
-	r.Floor("R2.unbox", 1)
-	_ = named
 }
